@@ -108,6 +108,19 @@ let handle kind a =
              | e -> fmt_res e)
         | _ -> failwith "region") regions in
       Some ("Q=" ^ (if ans = [] then "_" else String.concat ";" ans))
+  | "mzq" ->
+      (* as zq, on merged multi-slice containers (layout a.(6), regions a.(7)) *)
+      let f = parse_mfile a.(6) (parse_recs a.(3)) in
+      let nrefs = n_of_int (List.length (split_on ',' a.(1))) in
+      let regions = if a.(7) = "_" then [] else split_on ';' a.(7) in
+      let ans = List.map (fun t ->
+        match split_on ':' t with
+        | [r; lo; hi] ->
+            (match index_then_query (n_of_dec a.(4)) nrefs f (n_of_dec r) (opt lo) (opt hi) with
+             | Ok l -> fmt_names l
+             | e -> fmt_res e)
+        | _ -> failwith "region") regions in
+      Some ("Q=" ^ (if ans = [] then "_" else String.concat ";" ans))
   | "midx" ->
       let f = parse_mfile a.(6) (parse_recs a.(3)) in
       (match index_real (n_of_dec a.(4)) f with
